@@ -32,7 +32,8 @@ MANIFEST = {
             'before every entity reached/passed a requested state.'
             "  Second session: the oracle uses its own constant of final states (the repository's rps.FINAL list is mutable shared state which a wait call can corrupt for later calls of the same process)."
             '  Third session: a two-thread workload (400 / 12000 runs) puts wait_tasks on an application thread and the final notifications on a subscriber thread through the real _state_sub_cb, with a yield injected before every acquisition of the manager\'s task lock; the waiter\'s polls are counted and it has to return within 40 polls after the last notification was applied.'
-            '  For wait_tasks a task which is past the earliest awaited state has reached it (the rule the method documents), also for the lateness bound.',
+            '  For wait_tasks a task which is past the earliest awaited state has reached it (the rule the method documents), also for the lateness bound.'
+            '  5% of the cases are trickles: 8-30 tasks / pilots reach the awaited state one after the other, about one per poll, across the moment the timeout expires (the call makes progress in every poll round and still has to honour its timeout).',
     'note': 'bounded-progress restatement of "returns when it should" (3-poll '
             'slack, 50-poll hang threshold); state changes happen between '
             'polls, each state is held for at least one poll; timeout 0 is '
@@ -101,7 +102,29 @@ class VClock(object):
 
 # ------------------------------------------------------------------------------
 #
+def gen_trickle(rng):
+    '''many entities which reach the awaited state one after the other, about
+    one per poll, across the moment the timeout expires'''
+
+    api   = rng.choice(['tmgr', 'tmgr', 'pmgr'])
+    kind  = 'task' if api == 'tmgr' else 'pilot'
+    order = _TORDER if kind == 'task' else _PORDER
+    n     = rng.randint(8, 30)
+    gap   = rng.choice([1, 1, 1, 2])
+    end   = rng.choice([rps.DONE, rps.DONE, rps.FAILED, rps.CANCELED])
+    ents  = [{'uid': '%s.%d' % (kind[0], i), 'start': order[0],
+              'events': [[1 + gap * i, end]]} for i in range(n)]
+    return {'api': api, 'entities': ents,
+            'requested': rng.choice([None, None, end, [end]]),
+            'select': rng.choice(['all', 'list']),
+            'list_order': list(range(n)),
+            'timeout': rng.choice([0.3, 0.5, 1]), 'trickle': True}
+
+
 def gen_case(rng):
+
+    if rng.random() < 0.05:
+        return gen_trickle(rng)
 
     api  = rng.choice(['task', 'pilot', 'tmgr', 'pmgr'])
     kind = 'task' if api in ('task', 'tmgr') else 'pilot'
